@@ -310,3 +310,29 @@ Theorem C10_first_haplotype_decides : forall prefix fusedA fusedB h0 hs c0 chrs,
     /\ map sc_name fa = map sc_name fb.
 Proof. exact Proofs.MultiHap.first_haplotype_decides. Qed.
 Print Assumptions C10_first_haplotype_decides.
+
+(* CHROMOSOME NUMBERS, END TO END through [remap] for single-haplotype maps (the
+   hypotheses of C10_names_unique_single_haplotype plus pairwise distinct Pretext
+   scaffold names): the painted scaffolds without a name tag (rank 1) are named
+   <prefix><k><suffix> with suffix "" or "_unloc_<m>"; the chromosomes -- one per
+   Pretext scaffold name: the chromosome together with its unloc pieces -- are
+   numbered k = 1..n without holes in order of non-increasing sequence length
+   (fragment bases of all rank-1 scaffolds from that Pretext scaffold). *)
+From Tola Require Proofs.ChromosomeNumbers.
+Theorem C10_chromosome_numbers : forall g prefix bpt input pretext o,
+  remap repaired g prefix bpt input pretext = Ok o ->
+  Proofs.UniqueNames.input_namespace_ok prefix input pretext ->
+  (length (filter Proofs.UniqueNames.painted_b pretext) <= 191)%nat ->
+  Proofs.UniqueNames.no_haplotypes input -> Proofs.UniqueNames.no_haplotypes pretext ->
+  NoDup (map fst pretext) ->
+  Proofs.ChromosomeNumbers.numbered_by_length prefix o.
+Proof. exact Proofs.ChromosomeNumbers.chromosome_numbers_end_to_end. Qed.
+Print Assumptions C10_chromosome_numbers.
+
+(* "distinct Pretext scaffold names" was FORCED BY THE PROOF: a map that lists
+   Scaffold_1, Scaffold_2 and then Scaffold_1 again gives the pieces of Scaffold_1
+   two different chromosome numbers (refutation by computation; DESIGN 13.5) *)
+Theorem C10_chromosome_numbers_need_distinct_map_names :
+  ~ Proofs.ChromosomeNumbers.chromosome_numbers_statement_original.
+Proof. exact Proofs.ChromosomeNumbers.chromosome_numbers_original_refuted. Qed.
+Print Assumptions C10_chromosome_numbers_need_distinct_map_names.
